@@ -66,7 +66,7 @@ func c14Worker(c *core.Collector, x *Ctx) {
 		r := core.NewRand(c.Seed, "c14", uint64(ji))
 		id := core.Pick(r, []uint16{0x0801, 0x0704, 0x0200})
 		first := r.U16()
-		for variant := 0; variant < 4; variant++ {
+		for variant := 0; variant < 5; variant++ {
 			bodies := c05Bodies(r, j.N, variant&1)
 			b := &builder{}
 			var missing []int
@@ -75,8 +75,25 @@ func c14Worker(c *core.Collector, x *Ctx) {
 				if j.mask>>(k-2)&1 == 1 {
 					missing = append(missing, k)
 				} else {
+					if variant == 4 {
+						age(b, 2600) // a slow but active transfer: every arrival restarts the 5 s idle period
+					}
 					feed(b, hookFrame(false, id, uint16(1000+k), true, uint16(j.N), uint16(k), bodies[k-1]))
 				}
+			}
+			if variant == 4 {
+				age(b, 3000)
+				feed(b, hb(8)) // 3 s after the last arrival (although > 5 s after the transfer began): nothing
+				age(b, 2600)
+				feed(b, hb(9)) // 5.6 s idle: exactly one re-request
+				for i := len(missing) - 1; i >= 0; i-- {
+					k := missing[i]
+					age(b, 2600)
+					feed(b, hookFrame(false, id, uint16(2000+k), true, uint16(j.N), uint16(k), bodies[k-1]))
+					feed(b, hb(uint16(20+i))) // inbound data right after a resupplied packet: nothing
+				}
+				run("subset variant=4 (arrivals spread over time)", b)
+				continue
 			}
 			age(b, 4500)
 			feed(b, hb(1)) // idle < 5 s: nothing
